@@ -39,6 +39,8 @@ import (
 	"github.com/elastos/Elastos.ELA/core/types/payload"
 	"github.com/elastos/Elastos.ELA/database"
 	_ "github.com/elastos/Elastos.ELA/database/ffldb"
+	"github.com/elastos/Elastos.ELA/elanet"
+	"github.com/elastos/Elastos.ELA/mempool"
 	"github.com/elastos/Elastos.ELA/p2p"
 
 	"github.com/btcsuite/btcd/wire"
@@ -352,6 +354,14 @@ func bSnap() string {
 	}
 	return fmt.Sprintf("fifo=%s keys=%s", joinC(f), joinC(k))
 }
+
+// storeOnly is a chain store that only knows its ffldb part
+type storeOnly struct {
+	blockchain.IChainStore
+	ffl *blockchain.ChainStoreFFLDB
+}
+
+func (s *storeOnly) GetFFLDB() blockchain.IFFLDBChainStore { return s.ffl }
 
 // ---------------------------------------------------------------- D. send cache
 
@@ -701,6 +711,19 @@ func exec(t []string) string {
 		}
 		blk, err := B.store.GetBlock(bHash(id))
 		if err != nil {
+			return "err notfound " + bSnap()
+		}
+		c := 0
+		if blk.HaveConfirm {
+			c = int(blk.Confirm.Proposal.ViewOffset)
+		}
+		return fmt.Sprintf("ok %d %d %s", blk.Height, c, bSnap())
+	case "b.push":
+		// NetServer.pushBlockMsg's fetch-and-strip step for an InvTypeBlock request (block pool first, then the chain)
+		id := atoi(t[1])
+		chain := blockchain.VerifBlockChainOnStore(&storeOnly{ffl: B.store})
+		blk := elanet.VerifBlockWithoutConfirm(chain, mempool.NewBlockPool(&config.DefaultParams), bHash(id))
+		if blk == nil {
 			return "err notfound " + bSnap()
 		}
 		c := 0
